@@ -296,7 +296,7 @@ def main(argv=None):
     # 5. known findings: witnesses must still reproduce ---------------------------------------
     kf_lines = []
     for k in kfs:
-        ob = Ob(k['harness'], dict(k.get('witness_params') or {}), module=prop.HARNESS)
+        ob = Ob(k['harness'], dict(k.get('witness_params') or {}), module=k.get('module') or prop.HARNESS)
         p = dict(ob.params)
         if k.get('param'):
             p[k['param']] = False
